@@ -1261,6 +1261,7 @@ def rw_sink_common_tail(func, k):
 
 
 class Ctx:
+    nested_sigs = {}
     ref_counter = Counter()
     ref_hashes = frozenset()
     line_hash = None
@@ -1745,7 +1746,7 @@ def rw_keyword_to_positional(func, k):
         while isinstance(root, ast.Attribute):
             root = root.value
         library = isinstance(c.func, ast.Attribute) and isinstance(root, ast.Name) and root.id in ('np', 'anp', 'numpy', 'scipy', 'math', 'struct', 'warnings', 'rng', 'gzip', 'json', 'pickle')
-        local_sig = None
+        local_sig = Ctx.nested_sigs.get(nm) if isinstance(c.func, ast.Name) else None
         for d_ in ast.walk(func):
             if isinstance(d_, FuncDef) and d_.name == nm and d_ is not func and isinstance(c.func, ast.Name) and not (d_.args.vararg or d_.args.posonlyargs):
                 local_sig = [x.arg for x in d_.args.args]
@@ -1921,7 +1922,72 @@ def rw_membership_container(func, k):
     return True
 
 
-GUIDED = [rw_extract_temp, rw_flatten_comp_filter, rw_first_of_concat, rw_split_tuple_assign, rw_augcomp_to_loop, rw_len_zero, rw_bool_ifexp, rw_singleton_comp, rw_ndenumerate_value, rw_flat_to_ndenumerate, rw_slice_zero, rw_flip_compare, rw_keyword_to_positional, rw_fstring_to_percent, rw_np_all_any, rw_range_min_guard, rw_membership_container, rw_pass_branch, rw_dictcomp_to_loop, rw_none_flag, rw_argcomp_to_loop, rw_hoist_return, rw_get_none, rw_else_after_exit_wrap, rw_else_after_exit_unwrap, rw_comp_to_loop, rw_loop_to_comp, rw_not_compare, rw_demorgan, rw_swap_branches, rw_merge_nested_if, rw_split_and_if, rw_guard_to_swapped_else, rw_swapped_else_to_guard, rw_drop_tail_return, rw_add_tail_return, rw_element_to_index_loop, rw_fuse_loops, rw_late_publication, rw_drop_tail_continue, rw_items_loop, rw_filter_loop, rw_loop_to_update, rw_is_false, rw_hoist_common_tail, rw_sink_common_tail, rw_ifexp_to_if, rw_if_to_ifexp, rw_bool_to_if, rw_kwargs_default, rw_trailing_return, rw_enumerate, rw_return_temp]
+KNOWN_DEFAULTS = {
+    ('encode', 0): "'utf-8'", ('encode', 'encoding'): "'utf-8'", ('decode', 0): "'utf-8'",
+    ('zeros', 'dtype'): 'np.float64', ('ones', 'dtype'): 'np.float64', ('empty', 'dtype'): 'np.float64', ('identity', 'dtype'): 'np.float64', ('eye', 'dtype'): 'np.float64',
+    ('zeros', 'dtype', 2): 'float', ('ones', 'dtype', 2): 'float',
+    ('sorted', 'reverse'): 'False', ('round', 1): '0', ('split', 0): 'None', ('get', 1): 'None', ('flip', 'axis'): 'None', ('sum', 'axis'): 'None', ('mean', 'axis'): 'None',
+}
+
+
+def rw_drop_default_arg(func, k):
+    """x.encode('utf-8') -> x.encode() ; np.zeros(n, dtype=np.float64) -> np.zeros(n)      (an argument that spells out the documented default)"""
+    sites = []
+    for c in ast.walk(func):
+        if not isinstance(c, ast.Call):
+            continue
+        nm = c.func.attr if isinstance(c.func, ast.Attribute) else (c.func.id if isinstance(c.func, ast.Name) else None)
+        for kw in c.keywords:
+            d = KNOWN_DEFAULTS.get((nm, kw.arg))
+            d2 = KNOWN_DEFAULTS.get((nm, kw.arg, 2))
+            if kw.arg and (ast.unparse(kw.value) == d or (d2 and ast.unparse(kw.value) == d2)):
+                sites.append((c, kw))
+        if c.args and not c.keywords:
+            i = len(c.args) - 1
+            d = KNOWN_DEFAULTS.get((nm, i))
+            if d is not None and ast.unparse(c.args[i]) == d and (nm != 'get' or i == 1):
+                sites.append((c, i))
+    # all sites of one statement together
+    single = list(sites)
+    groups = [[x] for x in single]
+    for owner, fld, blk in blocks_of(func):
+        for st in blk:
+            if any(isinstance(getattr(st, f, None), list) and f in _BODY_FIELDS for f in st._fields):
+                continue
+            inside = {id(n) for n in ast.walk(st)}
+            g = [x for x in single if id(x[0]) in inside]
+            if len(g) > 1:
+                groups.append(g)
+    if k >= len(groups):
+        return False
+    for c, what in groups[k]:
+        if isinstance(what, int):
+            if what < len(c.args):
+                del c.args[what]
+        elif what in c.keywords:
+            c.keywords.remove(what)
+    return True
+
+
+def rw_unpack_first(func, k):
+    """a, _b, _c = f(x)   ->   a = f(x)[0]      (the other targets are never read)"""
+    sites = []
+    for owner, fld, blk in blocks_of(func):
+        for st in blk:
+            if isinstance(st, ast.Assign) and len(st.targets) == 1 and isinstance(st.targets[0], ast.Tuple) and len(st.targets[0].elts) >= 2 and isinstance(st.value, ast.Call) \
+                    and all(isinstance(t, ast.Name) for t in st.targets[0].elts):
+                rest = [t.id for t in st.targets[0].elts[1:]]
+                if not any(isinstance(n, ast.Name) and n.id in rest and isinstance(n.ctx, ast.Load) for n in ast.walk(func)):
+                    sites.append((blk, st))
+    if k >= len(sites):
+        return False
+    blk, st = sites[k]
+    new = ast.Assign(targets=[ast.Name(id=st.targets[0].elts[0].id, ctx=ast.Store())], value=ast.Subscript(value=st.value, slice=ast.Constant(value=0), ctx=ast.Load()))
+    blk[blk.index(st)] = fix(new, st)
+    return True
+
+
+GUIDED = [rw_extract_temp, rw_flatten_comp_filter, rw_first_of_concat, rw_split_tuple_assign, rw_augcomp_to_loop, rw_len_zero, rw_bool_ifexp, rw_singleton_comp, rw_ndenumerate_value, rw_flat_to_ndenumerate, rw_slice_zero, rw_flip_compare, rw_keyword_to_positional, rw_fstring_to_percent, rw_np_all_any, rw_range_min_guard, rw_membership_container, rw_drop_default_arg, rw_unpack_first, rw_pass_branch, rw_dictcomp_to_loop, rw_none_flag, rw_argcomp_to_loop, rw_hoist_return, rw_get_none, rw_else_after_exit_wrap, rw_else_after_exit_unwrap, rw_comp_to_loop, rw_loop_to_comp, rw_not_compare, rw_demorgan, rw_swap_branches, rw_merge_nested_if, rw_split_and_if, rw_guard_to_swapped_else, rw_swapped_else_to_guard, rw_drop_tail_return, rw_add_tail_return, rw_element_to_index_loop, rw_fuse_loops, rw_late_publication, rw_drop_tail_continue, rw_items_loop, rw_filter_loop, rw_loop_to_update, rw_is_false, rw_hoist_common_tail, rw_sink_common_tail, rw_ifexp_to_if, rw_if_to_ifexp, rw_bool_to_if, rw_kwargs_default, rw_trailing_return, rw_enumerate, rw_return_temp]
 
 
 def _clone(node):
